@@ -198,9 +198,18 @@ class C07(Prop):
                   "document, no formatter: no panic, comment lines stay in front of the same field/paragraph, fields and paragraphs reported are those of "
                   "the input in the stable sorted order, VALUE and COMMENT texts kept, INDENT exactly as requested, second application returns the same "
                   "tree (C07_tokens_entry, C07_tokens_rebuild_value, C07_tokens_paragraph, C07_tokens_document, C07_error_free, C07_error_free_paragraph). "
-                  "PARTIAL (streams + oracle only): for error-free documents outside Grammar.wf_doc the clause 'the printed result parses strictly and "
-                  "re-reads to the reported content' (needs C03 for those layouts); formatters on such documents and formatters with unshaped output; "
-                  "relationship fields outside C13's domain; see docs/cones/C07.md 'What remains'.")
+                  "The image of the strict reader (coq/proofs/ParseImageP.v, for every cone): XGrammar.v's layouts (Grammar.v's plus LF/CR line ends, "
+                  "blanks before the colon, comment/empty lines inside values, values that start on a continuation line) are, when well-formed, lexed to "
+                  "exactly their tokens and parsed without error to exactly their tree with their content (C07_parse_image_accept), and every tree "
+                  "from_str returns is the tree of such a layout of the text (C07_parse_image_complete); so the reader is the inverse of `text` on its image "
+                  "(C07_image; C03's documents are the special case C07_grammar_in_image). With it the re-read clause for EVERY error-free document, no "
+                  "formatter, no premise on the comparators (C07_error_free_reread, C07_error_free_full, field step C07_error_free_field): the text of the "
+                  "reformatted tree is the rendering of a well-formed layout D, so the strict reader accepts it and returns a tree with exactly the "
+                  "reported content; in D every continuation line is indented by the requested width, every line is terminated, and paragraphs are "
+                  "separated by exactly one empty line (xsingle_blanks), none at the start or the end; likewise for the control wrappers on "
+                  "C07_control_real's domain (C07_control_real_image). "
+                  "PARTIAL (streams + oracle only): formatters (the control formatter included) on error-free documents outside Grammar.wf_doc and "
+                  "formatters with unshaped output; relationship fields outside C13's domain; see docs/cones/C07.md 'What remains'.")
     level_note = ("Model: Entry/Paragraph/Deb822::wrap_and_sort, rebuild_value, inject (src/lossless.rs), lex_inline (src/lex.rs), format_field and "
                   "Control/Source/Binary::wrap_and_sort (debian-control/src/lossless/control.rs), the relations branch being C13's RelWrap.ctl_rel. "
                   "The six repairs of this cone are in /repo (6a001af c25b7d1 a95d981 88b9361 101ca2e 5a3c57b): `./check C07` compares the model of "
